@@ -188,7 +188,71 @@ def run_case(case):
         if not viol2 and tag2.startswith("nsol"):
             viol = [V("KF1:indel-realignment-reference-has-N-at-alignment-gap", original=[v["bucket"] for v in viol], planted=names)]
             labels.append("kf1")
+    # Known finding KF2: the vendored indelpost library itself miscounts the reads supporting a catalogued indel
+    # (seen: error-free reads carrying a SNP 25 bp away are all counted as carrying an insertion).  Attributed only
+    # if (a) the harness' own call of indelpost for that variant (anchored by the harness from the loaded variant,
+    # not by aldy's code) disagrees with the number of reads that really carry the indel, and (b) aldy's table holds
+    # exactly indelpost's answer, i.e. aldy passed the library's answer on faithfully.
+    if viol and has_indel and "kf1" not in labels:
+        try:
+            bad = _indelpost_miscounts(gene, bam, d)
+        except Exception as e:  # noqa
+            bad = None
+            labels.append("kf2-probe-failed:" + type(e).__name__)
+        if bad:
+            from aldy.sam import Sample
+
+            smp = Sample(gene, Profile("x", cn_solution=["1", "1"]), bam)
+            if all(tuple(smp._indel_sites.get(k, (None, None))) == tuple(v["indelpost"]) for k, v in bad.items()):
+                viol = [V("KF2:indelpost-miscounts-indel-support", original=[v["bucket"] for v in viol], planted=names,
+                          sites={f"{k[0]}.{k[1]}": v for k, v in bad.items()})]
+                labels.append("kf2")
     return Result(viol, labels, nontrivial, info=info)
+
+
+def _indelpost_miscounts(gene, bam, d):
+    """{(pos, op): {"truth": n_reads_with_that_indel, "indelpost": (off, on)}} for catalogued insertions/deletions
+    whose on-target count from a direct indelpost call differs from the number of reads whose CIGAR has it."""
+    import pysam
+    from aldy.indelpost import Variant, VariantAlignment
+
+    fa = os.path.join(d, "kf2ref.fa")
+    with pysam.AlignmentFile(bam) as sam:
+        sz = sam.get_reference_length(gene.chr)
+        lo, hi = gene._lookup_range
+        with open(fa, "w") as f:
+            f.write(f">{gene.chr}\n" + "N" * lo + "".join(gene[i] for i in range(lo, hi)) + "N" * (sz - hi) + "\n")
+        pysam.faidx(fa)
+        ref = pysam.FastaFile(fa)
+        out = {}
+        for (pos, op) in gene.mutations:
+            if op[:3] not in ("ins", "del") or "ins" in op[3:]:
+                continue
+            truth = 0
+            for r in sam.fetch(gene.chr, max(0, pos - 1), pos + 2):
+                p = r.reference_start
+                q = 0
+                for o, n in r.cigartuples:
+                    if o == 0:
+                        p += n
+                        q += n
+                    elif o == 1:
+                        if op.startswith("ins") and p - 1 == pos and r.query_sequence[q:q + n] == op[3:]:
+                            truth += 1
+                        q += n
+                    elif o == 2:
+                        if op.startswith("del") and p == pos and n == len(op) - 3:
+                            truth += 1
+                        p += n
+            if op.startswith("ins"):
+                v = Variant(gene.chr, pos + 1, gene[pos], gene[pos] + op[3:], ref)
+            else:
+                v = Variant(gene.chr, pos, gene[pos - 1] + op[3:], gene[pos - 1], ref)
+            va = VariantAlignment(v, sam, mapping_quality_threshold=10, base_quality_threshold=10, exact_match_for_shiftable=True)
+            off, on = va.count_alleles()
+            if on != truth:
+                out[(pos, op)] = {"truth": truth, "indelpost": (off, on)}
+    return out
 
 
 def case_strategy(db_kwargs=None):
@@ -209,4 +273,4 @@ def strategy(tier):
 
 
 def budget(tier):
-    return {"examples": 1280 if tier == "quick" else 16000, "shards": 16}
+    return {"examples": 1024 if tier == "quick" else 16000, "shards": 16}
